@@ -277,7 +277,14 @@ func runC06(s *kernel.Sim, _ string) {
 	n := simnet.New(s)
 	n.Faults = simnet.Faults{}
 	p := &pipeline{}
-	sv := startServers(s, n, p, serverOpts{dot: true, doh: true, doq: true, setB: true})
+	// In half of the runs the warmed plain-DNS and DoT servers listen through
+	// interface listeners, which have receive buffers of their own.
+	boundBuf := 0
+	if t.Chance(1, 2, "bound") {
+		boundBuf = kernel.Pick(t, []int{1, 4, 64}, "bound-chan")
+		s.Probe("interface-bound-listeners")
+	}
+	sv := startServers(s, n, p, serverOpts{dot: true, doh: true, doq: true, setB: true, bound: boundBuf})
 	defer sv.shutdown()
 
 	raw, kind := genProbe(t)
